@@ -11,6 +11,7 @@ import (
 	"verifsim/tape"
 
 	pipeline "github.com/buildkite/go-pipeline"
+	"gopkg.in/yaml.v3"
 )
 
 func C02() *engine.Scenario {
@@ -40,6 +41,40 @@ func runC02(c *engine.Ctx) {
 	entry := p.Draw(2, "cfg:entry") // 0 per-step job, 1 whole pipeline
 	o := w.opts(4)
 	doc := o.Pipeline()
+	fieldClash := false
+	if interp && doc.Kind == gen.KMap {
+		// (a) an env-block name built by expansion that lands on a later literal name: the block then
+		// carries a deleted slot when the uploader calls Env.ToMap()
+		if p.Draw(2, "interp:envcollision") == 1 {
+			e := doc.Get("env")
+			if e == nil || e.Kind != gen.KMap {
+				e = gen.Map()
+				doc.Set("env", e)
+			}
+			if !e.Has("${T_NAME}") && !e.Has("TARGET_VAR") {
+				ne := gen.Map().Set("${T_NAME}", gen.Str("early value"))
+				for i, k := range e.Keys {
+					ne.Set(k, e.Vals[i])
+				}
+				ne.Set("TARGET_VAR", gen.Str("late value"))
+				doc.Set("env", ne)
+				w.features["env_block_rename_collision"] = true
+			}
+		}
+		// (b) an unknown key whose NAME expands to the name of a typed field of the same step
+		if p.Draw(3, "interp:fieldclash") == 2 {
+			forEachCommandNode(docSteps(doc), func(n *gen.Node) {
+				if fieldClash || p.Draw(2, "interp:clash-here") == 0 {
+					return
+				}
+				which := p.Draw(4, "interp:clash-field")
+				n.Set([]string{"${CLASH_COMMAND}", "${CLASH_LABEL}", "${CLASH_KEY}", "${CLASH_ENV}"}[which],
+					[]*gen.Node{gen.Str("shadow command"), gen.Str("shadow label"), gen.Str("shadow-key"), gen.Map().Set("SHADOW", gen.Str("1"))}[which])
+				fieldClash = true
+				w.features["unknown_key_expands_to_field_name"] = true
+			})
+		}
+	}
 	src, format := gen.Render(p, doc, true)
 	c.Ev("doc", format, len(src), tape.HashString(string(src)))
 	c.Sample = map[string]any{"format": format, "document": truncate(string(src), 1500), "key": kp.kind, "hops": nhops, "entry": entry}
@@ -53,6 +88,11 @@ func runC02(c *engine.Ctx) {
 	if interp {
 		env := newEnvNode(false, nil)
 		env.Set("FOO", "foo value")
+		env.Set("T_NAME", "TARGET_VAR")
+		env.Set("CLASH_COMMAND", "command")
+		env.Set("CLASH_LABEL", "label")
+		env.Set("CLASH_KEY", "key")
+		env.Set("CLASH_ENV", "env")
 		var err error
 		c.Guard("C02.panic", "Interpolate", func() { err = pl.Interpolate(env, p.Draw(2, "cfg:prefer") == 1) })
 		if err != nil {
@@ -99,6 +139,13 @@ func runC02(c *engine.Ctx) {
 			c.Probe("yaml_hop_skipped_excluded_string")
 			f = "json"
 		}
+		if f == "yaml" && fieldClash && h == 0 {
+			var yerr error
+			c.Guard("C02.yaml-inline-conflict", "interpolated unknown key equals a typed field name", func() { _, yerr = yaml.Marshal(pl) })
+			if yerr != nil {
+				c.Fail("C02.yaml-inline-conflict", "interpolated unknown key equals a typed field name", "yaml.Marshal of the signed pipeline failed: %v", yerr)
+			}
+		}
 		out, err := relayHop(c, "C02", data, f)
 		if err != nil {
 			c.Fail("C02.relay", "hop "+curFmt+"->"+f, "relaying the signed pipeline through Parse + %s marshal failed: %v\ninput to the hop (%s):\n%s", f, err, curFmt, truncate(string(data), 1500))
@@ -112,6 +159,10 @@ func runC02(c *engine.Ctx) {
 	delivered := 0
 	ctx := context.Background()
 	failStep := func(oracle, cls string, v *verdict, stepDesc string) {
+		if fieldClash {
+			// input class of known finding D12
+			cls += " [interpolated unknown key equals a typed field name]"
+		}
 		c.Fail(oracle, cls, "%s\nkey=%s hops=%v entry=%d repo=%q\nstep as delivered: %s\noriginal document (%s):\n%s", describeVerdict(v), kp.kind, hopFmts, entry, repoURL, truncate(stepDesc, 1200), format, truncate(string(src), 1500))
 	}
 	if entry == 1 {
